@@ -14,14 +14,14 @@ SCHEMES = ["tdvp_vmf", "prop_and_compress_tdrk4", "tdvp_ps", "tdvp_ps2"]
 @st.composite
 def cases(draw, tier):
     big = tier == "thorough"
-    mode = draw(st.sampled_from(["exact", "exact", "exact", "poly", "conserve", "chain", "gs", "limit"]))
+    mode = draw(st.sampled_from(["exact", "exact", "exact", "poly", "conserve", "chain", "gs", "limit", "limit"]))
     tspec = draw(T.tree_specs(min_sites=2, max_sites=5 if big else 4, qn=draw(st.sampled_from([0, 1, 1, 2])), max_dim=64 if not big else 128,
                               max_nodes=6, small_sho=True, allow_single=False))
     if mode == "chain":
         tspec["topo"] = {"ctor": "linear"}
     terms = draw(gen.hermitian_hamiltonian(tspec["model"], max_terms=4, real_only=True))
     return {"mode": mode, "tree": tspec, "terms": terms, "q": draw(st.integers(0, 50)), "rng": draw(st.integers(0, 10 ** 6)),
-            "scheme": draw(st.sampled_from(SCHEMES)), "imag": draw(st.booleans()), "normalize": draw(st.booleans()),
+            "scheme": draw(st.sampled_from(SCHEMES if mode != "limit" else SCHEMES + ["tdvp_ps2", "tdvp_ps2"])), "imag": draw(st.booleans()), "normalize": draw(st.booleans()),
             "hdt": draw(st.sampled_from([0.03, 0.05, 0.1, 0.2, 0.3, 0.5, 1.0, 2.0])), "nstep": draw(st.integers(1, 4)),
             "m0": draw(st.sampled_from([1, 2, 3])), "cplx": draw(st.booleans()), "coeff": draw(st.sampled_from([[1.0, 0.0], [0.6, 0.8], [2.0, 0.0]])),
             "ttno_algo": draw(st.sampled_from(["qr", "Hopcroft-Karp"])), "M": draw(st.integers(1, 4)),
@@ -169,6 +169,10 @@ class C12(Prop):
         if imag and kind == "tdvp_vmf":
             nstep = min(nstep, 2)
         tau = -1j * t if imag else t
+        if not imag and kind != "tdvp_vmf" and case["rng"] % 3 == 0:
+            # a real step given as a complex-typed number (e.g. a total time divided by a complex step count): still real time
+            tau = complex(t, 0.0) if case["rng"] % 2 else np.complex128(t)
+            r.classes.append("real_step_complex_typed")
 
         def step(cur, normalize, cc=None):
             cur.evolve_config = make_config(kind)
@@ -244,9 +248,25 @@ class C12(Prop):
         elif mode == "limit":
             M = max(case["M"], max(x.bond_dims))
             cur = x
+            per_node = None
+            if (case["rng"] % 4 or kind == "tdvp_ps2") and kind in ("tdvp_ps2", "prop_and_compress_tdrk4"):
+                # a limit per bond (compress_config.max_dims, indexed by the pre-order number of the node below the bond), none
+                # smaller than the bond the state already has
+                g = np.random.default_rng(case["rng"])
+                bd0 = list(x.bond_dims)
+                per_node = [max(int(b), int(g.integers(1, 5))) for b in bd0] + [1]
+                per_node[0] = 1
+                r.classes.append("limit.per_bond")
             for k in range(nstep):
-                cur = step(cur, False, CompressConfig(CompressCriteria.fixed, max_bonddim=M))
-                if not r.check(f"limit.{kind}", max(cur.bond_dims) <= M, f"step {k}: bond dims {cur.bond_dims} exceed {M}"):
+                cc = CompressConfig(CompressCriteria.fixed, max_bonddim=M)
+                if per_node is not None:
+                    cc.max_dims = np.array(per_node, dtype=int)
+                cur = step(cur, False, cc)
+                if per_node is not None:
+                    if not r.check(f"limit.per_bond.{kind}", all(int(b) <= per_node[i] for i, b in enumerate(cur.bond_dims)),
+                                   f"step {k}: bond dims {list(cur.bond_dims)} exceed the per-bond limits {per_node[:-1]}"):
+                        break
+                elif not r.check(f"limit.{kind}", max(cur.bond_dims) <= M, f"step {k}: bond dims {cur.bond_dims} exceed {M}"):
                     break
                 vv = T.dense_of(ctx, cur)
                 r.check("limit.finite", bool(np.all(np.isfinite(vv))), "non-finite state")
